@@ -268,7 +268,7 @@ def run_unit(unit, threads=4, extra_args=None, rlimit=None, rlimit_scale=1.0):
     if oj and not ur.canary_failed and not ur.undecided:
         ur.undecided.append(f"{unit}: vacuity canary `ensures false` was NOT rejected -- assumed contracts are inconsistent")
     # a function verus reports as failed but for which we named no obligation -> undecided
-    named_fns = {o["fn"].split("::")[-1] for o in ur.failed}
+    named_fns = {o["fn"].split("::")[-1].split("@")[0] for o in ur.failed}
     for f in ur.functions:
         short = f["function"].split("::")[-1]
         if not f["success"] and short not in named_fns and short != "__verif_canary":
@@ -388,7 +388,7 @@ def decide(prop, tier, seed):
         items = [f for f in ur.functions if not f["function"].endswith("__verif_canary")]
         by_fn = {}
         for o in ur.failed:
-            by_fn.setdefault(o["fn"].split("::")[-1], []).append(o)
+            by_fn.setdefault(o["fn"].split("::")[-1].split("@")[0], []).append(o)
         for f in items:
             short = f["function"].split("::")[-1]
             if f["success"]:
